@@ -5,7 +5,7 @@
     source are regenerated into Gen/FsWalk_gen.v on every run and the premises [backend_keys_ok], [walk_ok] (and
     the chain parameters) are discharged for them by kernel-checked instance obligations in checks/c19.py. *)
 From Coq Require Import List NArith Bool Permutation.
-From SV Require Import SM.FsChain SM.FsChainProofs SM.FsChainRel SM.FsChainWitness SM.FsChainRaw SM.FsChainCompose SM.FsChainComplete SM.FsChainNorm SM.FsChainForms SM.FsChainFormsProofs SM.FsChainWhole SM.FsChainRead SM.FsChainReadProofs SM.FsChainMixed.
+From SV Require Import SM.FsChain SM.FsChainProofs SM.FsChainRel SM.FsChainWitness SM.FsChainRaw SM.FsChainCompose SM.FsChainComplete SM.FsChainNorm SM.FsChainForms SM.FsChainFormsProofs SM.FsChainWhole SM.FsChainWholeProofs SM.FsChainRead SM.FsChainReadProofs SM.FsChainMixed SM.FsChainMixedProofs.
 Import ListNotations.
 Open Scope N_scope.
 
